@@ -51,6 +51,11 @@ func main() {
 	}
 	if mode == "-chans" {
 		r := &rewriter{fset: fset}
+		for _, imp := range f.Imports {
+			if imp.Path.Value == `"time"` && imp.Name == nil {
+				r.sleeps = true
+			}
+		}
 		r.file(f)
 		if r.used {
 			addImport(f, vsched)
@@ -102,6 +107,7 @@ type rewriter struct {
 	fset     *token.FileSet
 	used     bool
 	timeUsed bool // a time.After call was replaced: keep the import "time" used
+	sleeps   bool // rewrite time.Sleep statements (only when the file imports the standard "time" package as time)
 }
 
 func (r *rewriter) call(fn string, args ...ast.Expr) *ast.CallExpr {
@@ -189,6 +195,15 @@ func (r *rewriter) stmt(s ast.Stmt) ast.Stmt {
 	case *ast.ExprStmt:
 		if ch, ok := recvChan(s.X); ok {
 			return &ast.ExprStmt{X: r.call("Wait", ch)}
+		}
+		// time.Sleep(d) as a statement becomes a scheduler yield (no wall-clock time passes in an execution)
+		if call, ok := s.X.(*ast.CallExpr); ok {
+			if sel, ok := call.Fun.(*ast.SelectorExpr); ok {
+				if id, ok := sel.X.(*ast.Ident); ok && id.Name == "time" && sel.Sel.Name == "Sleep" && r.sleeps {
+					r.timeUsed = true
+					return &ast.ExprStmt{X: r.call("Sleep", call.Args...)}
+				}
+			}
 		}
 		r.exprs(s.X)
 		return s
